@@ -790,6 +790,22 @@ func (e *SpecEnv) call(n *ECall) (tv, error) {
 			case "replaceAll":
 				return tv{t: fmt.Sprintf("(str.replace_all %s %s %s)", as[0].t, as[1].t, as[2].t), ty: tString}, nil
 			}
+		case "bstr":
+			as, err := argv()
+			if err != nil {
+				return tv{}, err
+			}
+			a := e.deref(as[0])
+			if !isByteSlice(a.ty) {
+				return tv{}, fmt.Errorf("bstr needs a []byte")
+			}
+			ss := d.sortOf(tString)
+			d.add("bytes2str", fmt.Sprintf("(declare-fun bytes2str ((Array Int Int) Int Int) %s)", ss))
+			off := "(s.off " + a.t + ")"
+			if p := slParts(a.t); p != nil {
+				off = p[1]
+			}
+			return tv{t: fmt.Sprintf("(bytes2str (select %s %s) %s %s)", e.heap(d.sliceHeap(types.Typ[types.Uint8])), slArr(a.t), off, slLen(a.t)), ty: tString}, nil
 		case "fresh":
 			as, err := argv()
 			if err != nil {
